@@ -949,9 +949,15 @@ class VizierServicer(vizier_service_pb2_grpc.VizierServiceServicer):
       }
       trial_metric_ids = set(trial_metric_id_to_value.keys())
       # Add trials ONLY if they succeeded and contain all supposed metrics.
+      # A NaN value is not a value: it compares false with everything, so such
+      # a trial would never be dominated.
       if (
           trial.state == study_pb2.Trial.State.SUCCEEDED
           and required_metric_ids.issubset(trial_metric_ids)
+          and not any(
+              np.isnan(trial_metric_id_to_value[metric_id])
+              for metric_id in required_metric_ids
+          )
       ):
         objective_vector = []
         for metric_id, goal in metric_id_to_goal.items():
